@@ -4,6 +4,7 @@
   /repo/include/Spectra/Util/SimpleRandom.h on every run.  Core Lean only.
 -/
 import SpectraVerif.Gen.Rand
+import SpectraVerif.Gen.RandSites
 import SpectraVerif.Proofs.RandLemmas
 
 namespace C19
@@ -74,6 +75,19 @@ theorem c19_draw_state {α : Type} [Add α] [Sub α] [Mul α] [Div α] [Neg α] 
 
 theorem c19_draw_value {α : Type} [Add α] [Sub α] [Mul α] [Div α] [Neg α] [Sc α] (s : Int) :
     (draw (α := α) s).2 = Sc.ofInt (next_long_rand s) / Sc.ofInt 2147483647 - Sc.lit 5 (-1) := rfl
+
+/-- **Where generators are created** (regenerated from the whole header tree on every run): exactly four sites, each a function-local
+    object WITHOUT static/thread storage (so no state survives a call or is shared between solvers or threads), seeded with the
+    constant `0` (default start vector, complex-shift probe) or with `seed + 123 * iter`, `iter < 5`, where `seed` is the `2 * i` passed
+    by the two `factorize_from` loops — the seed forms `0` and `2*i + 123*j` of `c19_seeds`.  A generator made `static`, a new site,
+    or a different seed expression changes the generated literal and breaks this theorem. -/
+theorem c19_sites :
+    Gen.RandSites.sites = [("Arnoldi::expand_basis", false, "seed + 123 * iter"), ("GenEigsBase::init", false, "0"),
+      ("GenEigsComplexShiftSolver::sort_ritzpair", false, "0"), ("HermEigsBase::init", false, "0")] ∧
+    Gen.RandSites.expandSeeds = [("Arnoldi::factorize_from", "2 * i"), ("Lanczos::factorize_from", "2 * i")] := by
+  constructor <;> rfl
+
+theorem c19_no_static_generator : ∀ s ∈ Gen.RandSites.sites, s.2.1 = false := by decide
 
 -- non-vacuity: a concrete non-trivial state meets the hypotheses and the classic check value holds
 example : next_long_rand 1 = 16807 := by decide
